@@ -11,6 +11,22 @@ NPROC = int(os.environ.get('VERIF_JOBS', '16'))
 KERNEL_PRIMS_OK = re.compile(r'^(PrimFloat\.|Uint63\.|PrimInt63\.|Float64|FloatOps\.|PrimArray\.|Sint63\.)')
 
 
+PRIM_TYPES = {'float', 'int', 'PrimInt63.int', 'Uint63.int', 'Set', 'bool', 'comparison', 'PrimFloat.float', 'float_comparison',
+              'float_class', 'FloatClass.float_class', 'PrimFloat.float_comparison', 'carry', 'PrimInt63.carry', 'prod', 'Z'}
+
+
+def kernel_primitive(entry):
+    """`name : type` from Print Assumptions is a kernel primitive of PrimFloat / Uint63 (native floats / ints),
+    not an axiom of ours: its type mentions primitive types only."""
+    if KERNEL_PRIMS_OK.match(entry):
+        return True
+    if ' : ' not in entry:
+        return False
+    name, ty = entry.split(' : ', 1)
+    toks = re.findall(r'[A-Za-z_][A-Za-z0-9_\.]*', ty)
+    return bool(toks) and all(t in PRIM_TYPES for t in toks)
+
+
 def scratch_dir():
     base = os.environ.get('VERIF_SCRATCH') or '/var/tmp'
     os.makedirs(base, exist_ok=True)
@@ -103,9 +119,11 @@ def parse_assumptions(props_file):
             cur = []
             blocks.append(cur)
         elif cur is not None:
-            m = re.match(r'^(\S+)\s*:', line)
+            m = re.match(r'^(\S+)\s*:\s*(.*)$', line)
             if m:
-                cur.append(m.group(1))
+                cur.append(m.group(1) + ' : ' + m.group(2).strip())
+            elif line.startswith(' ') and cur:
+                cur[-1] += ' ' + line.strip()
     res = {}
     for i, n in enumerate(names):
         res[n] = blocks[i] if i < len(blocks) else None
@@ -352,7 +370,7 @@ def run_check(mod, tier, seed):
             if ax is None:
                 bad_axioms[th] = ['<no Print Assumptions output>']
             else:
-                extra = [a for a in ax if not KERNEL_PRIMS_OK.match(a)]
+                extra = [a for a in ax if not kernel_primitive(a)]
                 if extra:
                     bad_axioms[th] = extra
         if bad_axioms:
